@@ -48,7 +48,8 @@ EXPECTED_PROBES = ("raised-in:def", "raised-in:def-buffered", "raised-in:def-fil
                    "raised-in:for", "raised-in:ccall", "raised-in:caller-body", "raised-in:capture", "raised-in:textfilter",
                    "raised-in:block", "raised-in:block-filtered", "raised-in:include", "raised-in:try", "raised-in:base-body",
                    "handled:try", "handled:include_error_handler", "handled:error_handler", "handled:render_context-caller",
-                   "unhandled:identity-checked", "unhandled:error-page", "sink-write-failed", "cache-creation-raised")
+                   "unhandled:identity-checked", "unhandled:error-page", "sink-write-failed", "cache-creation-raised",
+                   "namespace-def-called")
 
 
 # ---------------------------------------------------------------- generator
@@ -58,6 +59,8 @@ class Gen:
         self.nid = 0
         self.nblock = 0
         self.nloop = 0
+        self.lib = []
+        self.ninc = 0
 
     def cid(self):
         self.nid += 1
@@ -87,7 +90,8 @@ class Gen:
             nd["is_nested"] = True
             d["nested"].append(nd)
             avail = avail + [nd]
-        d["body"] = self.gen_body(avail, depth + 1, in_loop=False, aware=aware, blocks=False, includes=False, must_call=d["nested"])
+        d["body"] = self.gen_body(avail, depth + 1, in_loop=False, aware=aware, blocks=False, includes=False, must_call=d["nested"],
+                                  allow_self=not name.startswith(("l", "i")))
         return d
 
     def gen_body(self, defs, depth, in_loop, aware, blocks, includes, must_call=(), allow_self=True, nmax=None, ccall_ok=True):
@@ -100,6 +104,15 @@ class Gen:
             if pending and r.random() < 0.6:
                 d = pending.pop()
                 out.append(self.call_node(d, allow_self=False))
+            elif self.lib and allow_self and r.random() < 0.12:
+                d = r.choice(self.lib)
+                if d.get("aware"):
+                    if ccall_ok and depth < 3:
+                        out.append({"t": "ccall", "d": d["name"], "ns": "lib",
+                                    "body": self.gen_body([e for e in defs if not e.get("aware") and not e.get("is_nested")], depth + 2, False, False,
+                                                          False, False, allow_self=allow_self, nmax=3, ccall_ok=False)})
+                else:
+                    out.append({"t": "call", "d": d["name"], "via": "ns", "arg": self.cid() if d.get("arg") else None})
             elif x < 0.16:
                 out.append({"t": "text", "s": r.choice("abcdefgh") + str(r.randint(0, 9))})
             elif x < 0.34:
@@ -167,13 +180,19 @@ class Gen:
                 idefs.append(self.gen_def("i%dd" % k, [], 1))
             incs.append({"lookup": self.cid(), "defs": idefs,
                          "body": self.gen_body(idefs, 1, False, False, False, False, allow_self=False, nmax=4)})
+        self.lib = []
+        if r.random() < 0.4:
+            for j in range(r.randint(1, 3)):
+                d = self.gen_def("l%d" % (j + 1), [e for e in self.lib if not e.get("aware")], 1, aware=r.random() < 0.35)
+                d["lib"] = True
+                self.lib.append(d)
         defs = []
         for j in range(r.randint(1, 4)):
             aware = r.random() < 0.3
             # defs may call defs created before them (no recursion)
             defs.append(self.gen_def("d%d" % (j + 1), [e for e in defs if not e.get("aware")], 1, aware=aware))
         body = self.gen_body(defs, 0, False, False, True, True, nmax=7)
-        prog = {"defs": defs, "body": body, "incs": incs, "base": None, "child_hd": None,
+        prog = {"defs": defs, "body": body, "incs": incs, "base": None, "child_hd": None, "lib": self.lib,
                 "cache_impl": r.choice(("simdict", "beaker"))}
         if r.random() < 0.3:
             prog["base"] = {"lookup": self.cid(),
@@ -205,7 +224,7 @@ def count_nodes(nodes):
 def trace_size(trace):
     p = trace["prog"]
     n = count_nodes(p["body"])
-    for d in p["defs"]:
+    for d in list(p["defs"]) + list(p.get("lib", ())):
         n += 2 + count_nodes(d["body"]) + sum(2 + count_nodes(nd["body"]) for nd in d["nested"])
     for inc in p["incs"]:
         n += 3 + count_nodes(inc["body"]) + sum(2 + count_nodes(d["body"]) for d in inc["defs"])
@@ -245,8 +264,12 @@ def emit_node(n):
             return "${capture(%s%s)}" % (n["d"], (", " + args) if args else "")
         if n["via"] == "self":
             return "${self.%s(%s)}" % (n["d"], args)
+        if n["via"] == "ns":
+            return "${lib.%s(%s)}" % (n["d"], args)
         return "${%s(%s)}" % (n["d"], args)
     if t == "ccall":
+        if n.get("ns"):
+            return "<%%lib:%s>%s</%%lib:%s>" % (n["d"], emit_nodes(n["body"]), n["d"])
         return '<%%call expr="%s()">%s</%%call>' % (n["d"], emit_nodes(n["body"]))
     if t == "block":
         attrs = ""
@@ -280,6 +303,9 @@ def emit_program(prog):
     """-> {uri: template text}"""
     out = {}
     main = IMPORT
+    if prog.get("lib"):
+        main += '<%namespace name="lib" file="/lib.html"/>'
+        out["/lib.html"] = IMPORT + "".join(emit_def(d) for d in prog["lib"])
     if prog.get("base"):
         main += '<%inherit file="/base.html"/>'
     main += "".join(emit_def(d) for d in prog["defs"])
@@ -308,6 +334,7 @@ def cached_defs(prog):
             walk(uri, d.get("nested", ()))
 
     walk("/main.html", prog["defs"])
+    walk("/lib.html", prog.get("lib", ()))
     for k, inc in enumerate(prog["incs"]):
         walk("/inc%d.html" % k, inc["defs"])
     return out
@@ -482,6 +509,8 @@ class Harness:
         assert r0[0] == "ok"
         fault_free = r0[1]
         dyn = list(m0.order)
+        if m0.ns_calls:
+            self.probe("namespace-def-called", m0.ns_calls)
         # validate the model and the translation on the fault-free render, on every placement
         for pl in self.trace["placements"]:
             if only and only["placement"] != pl:
